@@ -1,5 +1,6 @@
 #!/bin/bash
 # tools/try_mutant.sh <patch.diff> <PROP> [budget_s]  -- run a check against /repo + patch in a scratch copy.
+# FULL=1: the complete path (shrink, replay file, confirmation in a fresh process) instead of the quick DEV listing.
 set -u
 PATCH="$1"; PROP="$2"; BUDGET="${3:-20}"
 S=$(mktemp -d /tmp/mutrun-XXXXXX)
@@ -7,5 +8,6 @@ trap 'rm -rf "$S"' EXIT
 rsync -a --exclude .git /repo/ "$S/repo/"
 (cd "$S/repo" && git init -q . 2>/dev/null; patch -p1 -s < "$PATCH") || { echo "PATCH FAILED"; exit 3; }
 mkdir -p "$S/out" && cp /verif/known-findings.txt "$S/out/"
-VERIF_REPO="$S/repo" VERIF_OUT_ROOT="$S/out" VERIF_NOSHRINK="${VERIF_NOSHRINK:-1}" /verif/bin/check "$PROP" --budget "$BUDGET" 2>&1 | grep -v '^\[build' | cut -c1-400
+if [ -n "${FULL:-}" ]; then unset VERIF_NOSHRINK; else export VERIF_NOSHRINK="${VERIF_NOSHRINK:-1}"; fi
+VERIF_REPO="$S/repo" VERIF_OUT_ROOT="$S/out" /verif/bin/check "$PROP" --budget "$BUDGET" 2>&1 | grep -v '^\[build' | cut -c1-400
 echo "exit=${PIPESTATUS[0]}"
